@@ -112,6 +112,28 @@ def sections(repo: Repo) -> RuleRun:
     a_v, a_b = attr_chain(vtk_calls[0].args[1]), attr_chain(vtk_calls[0].args[2])
     r.check(a_v in ("self.vertex_list.vertices", "self.vertices"), write, "VTK gets the vertex list", f"write_vtk receives {a_v} instead of the mesh's vertex list", vtk_calls[0], key="vtk:vertices")
     r.check(a_b in ("self.block_list.blocks", "self.blocks"), write, "VTK gets the block list", f"write_vtk receives {a_b} instead of the mesh's block list", vtk_calls[0], key="vtk:blocks")
+    # 'the optional debug VTK lists the same points and hexahedra': whenever a debug path is given - whether write() had to
+    # assemble the mesh itself or found it assembled (assemble() / backport() / an earlier write()) - so the call may depend on
+    # the debug path only
+    conds = []
+    node_ = vtk_calls[0]
+    while node_ is not None and node_ is not write.node:
+        par_ = parent(node_)
+        if isinstance(par_, (ast.If, ast.While)) and node_ is not par_.test:
+            conds.append(par_.test)
+        elif isinstance(par_, (ast.For, ast.Try, ast.With)):
+            conds.append(par_)
+        node_ = par_
+    foreign = [c_ for c_ in conds if not isinstance(c_, ast.expr) or {x.id for x in ast.walk(c_) if isinstance(x, ast.Name)} - {"debug_path", "self"} or any(isinstance(x, ast.Attribute) for x in ast.walk(c_))]
+    r.check(
+        not foreign,
+        write,
+        "the debug VTK is written whenever a debug path is given",
+        f"Mesh.write writes the debug VTK only under '{ast.unparse(foreign[0])[:60] if foreign and isinstance(foreign[0], ast.expr) else 'a loop / try'}': a mesh that is assembled already when write(path, debug_path) is called gets "
+        "no VTK - or keeps a stale one whose points no longer match the dictionary",
+        vtk_calls[0],
+        key="vtk:unconditional",
+    )
     return r
 
 
@@ -657,4 +679,24 @@ def empty_patch(repo: Repo) -> RuleRun:
 
 empty_patch.rule_id = "C06.EMPTY-PATCH"
 
-RULES = [sections, side_tables, vertex_ownership, assemble_walk, patch_state, delete_skip, geometry_label, precision, user_state_survives, grading_form, geometry_redeclared, vertex_tolerance, grade_idempotent, live_lengths, axis_table, corner_patches, empty_patch]
+def side_addressing(repo: Repo) -> RuleRun:
+    """'quads of the assigned sides': set_patch with one side or a list of sides assigns exactly those sides. Same rule as C10.SIDE-ADDRESSING."""
+    from ..report import rebrand
+    from . import c10
+
+    return rebrand(c10.side_addressing(repo), PROP, "C06.SIDE-ADDRESSING")
+
+
+side_addressing.rule_id = "C06.SIDE-ADDRESSING"
+
+
+def no_class_state(repo: Repo) -> RuleRun:
+    """'each non-deleted operation': what was deleted belongs to one mesh. Same rule as C12.NO-CLASS-STATE."""
+    from ..alias import class_state_rule
+
+    return class_state_rule(repo, PROP, "C06.NO-CLASS-STATE")
+
+
+no_class_state.rule_id = "C06.NO-CLASS-STATE"
+
+RULES = [sections, side_tables, vertex_ownership, assemble_walk, patch_state, delete_skip, geometry_label, precision, user_state_survives, grading_form, geometry_redeclared, vertex_tolerance, grade_idempotent, live_lengths, axis_table, corner_patches, empty_patch, side_addressing, no_class_state]
